@@ -20,7 +20,12 @@ import (
 )
 
 // C06: no received byte sequence crashes, wedges or over-allocates a peer.
-//   c06unpack: rawProto.Unpack on arbitrary bytes vs the Lean model (class, bytes consumed, bound)
+//   c06unpack: rawProto.Unpack on arbitrary bytes vs the Lean model (class, bytes consumed, bound,
+//              largest read request)
+//   c06primed: the same, after the library's buffer pool has been primed with a large read buffer
+//              (an ordinary large frame was unpacked just before): frames whose pipe-length byte
+//              announces more filter ids than the frame has room for, frames of size 4 and 5 — what
+//              the reader does with them must not depend on the spare capacity of a recycled buffer
 //   xproto:    every shipped protocol's Unpack on arbitrary bytes with a small read limit — the
 //              property's own oracle only (no escaped panic is judged here: a panic inside Unpack is
 //              recovered by the session's read loop; allocation bound and "reader not blocked while
@@ -148,7 +153,114 @@ func c06Gen(r *hx.R, tier string, out *hx.Out) []string {
 		b := c06Mutate(r, c06Valid(r, proto), limit)
 		ls = append(ls, fmt.Sprintf("xlive proto=%s limit=%d bytes=%s", proto, limit, hx.Hex(b)))
 	}
-	return ls
+	// primed family: generated last (the lines above stay the same for a seed), run first (while
+	// utils.BufferPool is uncalibrated and recycles buffers of every size)
+	np := 150
+	if tier == "thorough" {
+		np = 1500
+	}
+	var ps []string
+	for i := 0; i < np; i++ {
+		limit := r.Pick(16, 64, 300, 1024)
+		b := c06ShortFrame(r, limit)
+		if r.Intn(8) == 0 { // a well-formed frame and what follows it
+			limit = r.Pick(300, 1024, 1<<16)
+			b = append(c06Valid(r, "raw"), r.Bytes(r.Intn(9), 0)...)
+		}
+		out.Count("c06primed:shape:" + c06Shape(b))
+		ps = append(ps, fmt.Sprintf("c06primed limit=%d chunk=%d cseed=%d prime=%d bytes=%s", limit, r.Intn(4), r.Intn(1000), r.Pick(300, 600, 2000), hx.Hex(b)))
+	}
+	return append(ps, ls...)
+}
+
+// c06ShortFrame: a raw frame whose 4-byte size is within the limit and whose pipe-length byte does
+// not fit (or only just fits) into what the size announces, followed by a tail of further bytes
+// (the next frames on the connection), sometimes cut short.
+func c06ShortFrame(r *hx.R, limit int) []byte {
+	size, xl := 4, 0
+	switch r.Intn(6) {
+	case 0: // no room for the pipe-length byte
+		size = 4
+		xl = r.Pick(0, 1, 255, r.Intn(256))
+	case 1: // room for the pipe-length byte only
+		size = 5
+		xl = r.Pick(1, 2, 255, 1+r.Intn(255))
+	case 2, 3: // the ids overrun the frame
+		size = 5 + r.Intn(limit-4)
+		if size > 5+254 {
+			size = 5 + r.Intn(254)
+		}
+		room := size - 5
+		xl = r.Pick(255, room+1, room+1+r.Intn(255-room))
+	case 4: // the ids fill the frame exactly (no byte left for the header)
+		size = 5 + r.Intn(limit-4)
+		if size > 5+255 {
+			size = 5 + r.Intn(256)
+		}
+		xl = size - 5
+	default: // the ids fit, a few bytes are left
+		size = 6 + r.Intn(limit-5)
+		if size > 6+254 {
+			size = 6 + r.Intn(255)
+		}
+		xl = r.Intn(size - 5)
+	}
+	b := []byte{byte(size >> 24), byte(size >> 16), byte(size >> 8), byte(size)}
+	if size > 4 || r.Intn(4) > 0 {
+		b = append(b, byte(xl))
+	}
+	var tail []byte
+	switch r.Intn(4) {
+	case 0: // registered filter ids of the test registry
+		for k := r.Intn(300); k > 0; k-- {
+			tail = append(tail, byte(r.Pick(1, 2, 3, 109)))
+		}
+	case 1:
+		tail = r.Bytes(r.Intn(24), 0)
+	default:
+		tail = r.Bytes(r.Intn(320), 0)
+	}
+	return append(b, tail...)
+}
+
+// c06Shape names the relation between the announced size and the pipe-length byte (histogram only).
+func c06Shape(b []byte) string {
+	if len(b) < 5 {
+		return "no-xferlen"
+	}
+	size := int(b[0])<<24 | int(b[1])<<16 | int(b[2])<<8 | int(b[3])
+	switch room := size - 5; {
+	case room < 0:
+		return "size4"
+	case int(b[4]) > room:
+		return "ids-overrun"
+	case int(b[4]) == room:
+		return "ids-exact"
+	}
+	return "ids-fit"
+}
+
+// c06Prime makes the library's read-buffer pool hold a buffer of at least n bytes, the way it
+// happens on any connection: one ordinary valid frame with an n-byte body is unpacked
+// (rawProto.Unpack acquires a pooled buffer, grows it to the frame and releases it).
+func c06Prime(n int) {
+	socket.SetMessageSizeLimit(0)
+	body := strings.Repeat("x", n)
+	msg := socket.NewMessage()
+	msg.SetSeq(1)
+	msg.SetMtype(1)
+	msg.SetServiceMethod("/c06/prime")
+	msg.SetBodyCodec('s')
+	msg.SetBody(&body)
+	cr := newChunkReader(nil, 0, 0)
+	if err := socket.RawProtoFunc(cr).Pack(msg); err != nil {
+		panic("c06Prime: pack: " + err.Error())
+	}
+	rd := newChunkReader(append([]byte(nil), cr.written.Bytes()...), 0, 0)
+	in := socket.NewMessage(socket.WithNewBody(func(socket.Header) interface{} { return new(string) }))
+	if err := socket.RawProtoFunc(rd).Unpack(in); err != nil {
+		panic("c06Prime: unpack: " + err.Error())
+	}
 }
 
 // c06Unpack runs one Unpack and measures what it asked the reader for and what it allocated.
@@ -209,9 +321,14 @@ func c06Run(line string, out *hx.Out) (string, bool) {
 	// generous slack: message objects, Args, status, error values, the chunk reader itself
 	budget := uint64(limit)*3 + uint64(len(b))*8 + 64<<10
 	switch kind {
-	case "c06unpack":
+	case "c06unpack", "c06primed":
+		if kind == "c06primed" {
+			prime, _ := strconv.Atoi(f["prime"])
+			c06Prime(prime)
+			socket.SetMessageSizeLimit(uint32(limit))
+		}
 		class, consumed, alloc, maxAsk := c06UnpackStable(socket.RawProtoFunc, b, chunk, cseed, budget)
-		out.Count("c06unpack:" + class)
+		out.Count(kind + ":" + class)
 		bounded := 1
 		if maxAsk > limit && maxAsk > 4 {
 			bounded = 0
@@ -223,11 +340,24 @@ func c06Run(line string, out *hx.Out) (string, bool) {
 		if class == "eof" && consumed != len(b) {
 			out.Violate(line, "eof-consumes-all", fmt.Sprintf("eof after %d of %d bytes", consumed, len(b)), "c06:raw:eof-with-input-left")
 		}
+		if len(b) >= 4 {
+			// the frame announced `size` bytes (prefix included): nothing after them belongs to this message
+			size := int(b[0])<<24 | int(b[1])<<16 | int(b[2])<<8 | int(b[3])
+			if size < 4 {
+				size = 4
+			}
+			if consumed > size {
+				out.Violate(line, "consumed-within-frame", fmt.Sprintf("Unpack took %d bytes from the connection for a frame that announced %d", consumed, size), "c06:raw:read-beyond-frame")
+			}
+			if maxAsk > size-4 && maxAsk > 4 {
+				out.Violate(line, "read-request-within-frame", fmt.Sprintf("Unpack asked the reader to fill %d bytes for a frame that announced %d after the prefix", maxAsk, size-4), "c06:raw:read-request-beyond-frame")
+			}
+		}
 		rest := ""
 		if class == "ok" {
 			rest = fmt.Sprintf(" rest=%d", len(b)-consumed)
 		}
-		return fmt.Sprintf("%s%s consumed=%d bounded=%d", class, rest, consumed, bounded), len(b) > 4
+		return fmt.Sprintf("%s%s consumed=%d bounded=%d ask=%d", class, rest, consumed, bounded, maxAsk), len(b) > 4
 	case "xproto":
 		proto := f["proto"]
 		class, consumed, alloc, maxAsk := c06UnpackStable(c06ProtoFunc(proto), b, chunk, cseed, budget)
